@@ -572,6 +572,9 @@ class DatasetWorld(object):
                 if rng.random() < 0.5:
                     st["indexing"] = "position"
                     st["ind"] = [rng.randrange(n) for _ in range(rng.randint(1, 3))]
+                    if rng.random() < 0.4:
+                        st["mode"] = rng.choice(["clip", "wrap"])
+                        st["ind"] = [rng.randint(-n - 2, n + 2) for _ in range(rng.randint(1, 3))]
                 else:
                     st["indexing"] = "label"
                     st["ind"] = [rng.choice(labs) for _ in range(rng.randint(1, 3))]
